@@ -23,6 +23,9 @@ import mem_tie
 
 CORPUS = os.path.join(vplib.VERIF, "corpus", "C03")
 
+SOL1 = ["nsr 0 1 1 0 0 2 1 -1 0", "nsr 0 1 1 0 0 1 1 1 0", "nsr 0 1 1 0 0 0 1 0 0"]
+SOLT2 = ["nsr 0 2 2 0 0 %d %d %s 0" % (s, p, g) for p in (1, 2) for s, g in ((2, "-1"), (1, "1"), (0, "0"))] + ["nthru 0 2 2 0 0 1 2"]
+
 # directed scripts: one per candidate defect of DESIGN.md section 7 that touches C03 (each is the
 # concrete reproducer; when the defect is repaired the script simply passes)
 DIRECTED = {
@@ -84,6 +87,74 @@ DIRECTED = {
                            "nsr 0 1 1 0 0 2 1 -1 0", "nsr 0 1 1 0 0 1 1 1 0", "nsr 0 1 1 0 0 0 1 0 0", "nsr 0 1 1 0 0 4 1 0.1 -0.2", "nsr 0 1 1 0 0 5 1 0.1 -0.2",
                            "nmerr 0 1 1", "nsolve 0", "cpval 0 5 2e9", "nsolve 0", "cpval 0 4 2e9", "cpdel 0 5", "cpval 0 3 2e9", "nsolve 0",
                            "caddcal 0 cal0 0", "nfree 0", "cpdel 0 4", "cpdel 0 3", "cfree 0"],
+    # ---- D68 (memcpy(NULL, ..., 0) in _vnacal_new_solve_internal): a vnacal_new_t with ZERO frequencies and an unknown parameter, solved
+    "D68_zero_freq_unknown_solve": ["ccreate 0 1", "cunknown 0 2", "nalloc 0 0 8 1 1 0", "nsetfv 0 0"] + SOL1 + ["nsr 0 1 1 0 0 3 1 0.5 0.3", "nsolve 0", "nsolve 0",
+                                    "cpval 0 3 1e9", "caddcal 0 cal0 0", "cfree 0"],
+    # the same neighbourhood: unknown + correlated parameter, 2x2 TE10, measurement errors, solve, add_calibration, apply with 0 frequencies, save, load
+    "zero_freq_corr_2x2_through_everything": ["ccreate 0 1", "cscalar 0 0.45 0.25", "cunknown 0 3", "ccorr 0 4 1 1", "nalloc 0 0 2 2 2 0", "nsetfv 0 0", "nmerr 0 1 1"] + SOLT2 +
+                                             ["nsr 0 2 2 0 0 4 1 0.5 0.3", "nsr 0 2 2 0 0 5 2 0.5 0.3", "ndr 0 2 2 0 0 4 5 1 2 0.5 0.3 0.4 -0.1", "nsolve 0",
+                                              "cpval 0 4 1e9", "cpval 0 5 1e9", "caddcal 0 cal0 0", "dalloc 0 1", "capply 0 0 0 0 2 2 0 0", "capply 0 0 0 0 2 2 1 0",
+                                              "csave 0 0", "cload 1 0 1", "cend 1 0", "nsolve 0", "caddcal 0 cal0 0", "cfree 1", "cfree 0"],
+    # ---- D69 (NULL S cells dereferenced by the TRL classifier): 2x2 T8, two unknowns, exactly three standards: single reflect on port 2,
+    # single reflect on port 1, through (and the other orders / types)
+    "D69_trl_single_reflects": ["ccreate 0 1", "cunknown 0 2", "cunknown 0 1", "nalloc 0 0 0 2 2 1", "nsetfv 0 0", "nsr 0 2 2 0 0 3 2 -1 0", "nsr 0 2 2 0 0 4 1 1 0",
+                                "nthru 0 2 2 0 0 1 2", "nsolve 0", "cfree 0"],
+    "D69_trl_orders": ["ccreate 0 1", "cunknown 0 2", "cunknown 0 1"] +
+                      [op for n, t, stds in ((0, 1, ("T", "R1", "R2")), (1, 2, ("R1", "T", "D")), (2, 3, ("D", "R2", "T")), (3, 0, ("L", "R1", "T")))
+                       for op in ["nalloc %d 0 %d 2 2 2" % (n, t), "nsetfv %d 0" % n] +
+                       [{"T": "nthru %d 2 2 0 0 1 2", "R1": "nsr %d 2 2 0 0 3 1 -1 0", "R2": "nsr %d 2 2 0 0 4 2 1 0", "D": "ndr %d 2 2 0 0 3 4 1 2 -1 0 1 0",
+                         "L": "nline %d 2 2 0 0 0 4 4 0 1 2 0 0 0.7 0.7 0"}[k] % n for k in stds] + ["nsolve %d" % n]] + ["cfree 0"],
+    # a well-formed TRL set (through, equal unknown reflects, matched line of unknown transmission), solved twice
+    "trl_real": ["ccreate 0 1", "cscalar 0 -0.9 0.1", "cunknown 0 3", "cscalar 0 0 -0.8", "cunknown 0 5", "nalloc 0 0 0 2 2 2", "nsetfv 0 0", "nthru 0 2 2 0 0 1 2",
+                 "nline 0 2 2 0 0 4 0 0 4 1 2 0 -0.6 0 0 -0.6", "nline 0 2 2 0 0 0 6 6 0 1 2 0 0 0.7 0.7 0", "nsolve 0", "cpval 0 4 1.5e9", "cpval 0 6 1.5e9", "nsolve 0",
+                 "caddcal 0 cal0 0", "cfree 0"],
+    # ---- D70 (vnacal_save frees its own file name, then duplicates the caller's pointer, which is that name): save to the name the object reports,
+    # for a saved and for a loaded vnacal_t, and to the name held by a second vnacal_t
+    "D70_save_own_filename": ["ccreate 0 1", "nalloc 0 0 0 1 1 2", "nsetfv 0 0"] + SOL1 + ["nsolve 0", "caddcal 0 cal0 0", "casave 0 0", "csave 0 0", "casave 0 0", "casave 0 0",
+                              "cload 1 0 1", "casave 1 1", "cgets 1 0", "casave 0 1", "casave 1 0", "cfree 1", "caload 1 0 0", "casave 1 1", "cfree 0", "cfree 1"],
+    # ---- seeded changes C03-4, C03-5, C03-6 (shrink after use; list growth boundary)
+    # a vnadata_t whose frequency allocation (10) exceeds its frequency count (3) switches to per-frequency z0, grows to 6 inside the allocation; rows 3..5 are used
+    "data_shrink_then_fz0_then_grow": ["dalloc 0 1", "dinit 0 1 2 2 10", "dinit 0 1 2 2 3", "dsetfz0 0 1 0 75 0", "dresize 0 1 2 2 6", "dgetfz0 0 4 1", "dgetfz0v 0 5",
+                                       "dsetfz0 0 3 1 60 1", "dsetfz0v 0 5 0 45", "ddig 0", "dsave 0 0 x.npd", "daddf 0 9e9", "dgetfz0 0 6 0", "ddig 0", "dfree 0"],
+    "data_shrink_ports_then_fz0_then_grow": ["dalloc 0 1", "dinit 0 1 4 4 6", "dresize 0 1 2 2 2", "dsetfz0v 0 1 0 30", "dresize 0 1 4 4 5", "dgetfz0 0 4 3", "dsetfz0 0 3 3 60 1",
+                                             "ddig 0", "dsetz0 0 3 50 0", "dresize 0 1 2 2 1", "dsetfz0 0 0 1 75 0", "dresize 0 1 3 3 6", "dgetfz0v 0 5", "ddig 0", "dfree 0"],
+    # property lists of exactly 8 / 16 / 32 elements (the list vector is full), an insert strictly inside, an append, deletes, free
+    "list_insert_at_growth_boundary": [op for n in (8, 16, 32) for op in ["pset 0 l%d[+]=%d" % (n, i) for i in range(n)] +
+                                       ["pset 0 l%d[3+]=x" % n, "pset 0 l%d[+]=y" % n, "pcount 0 l%d" % n, "pget 0 l%d[%d]" % (n, n + 1), "pdel 0 l%d[0]" % n]] + ["pdig 0", "pdel 0 ."],
+    # one unknown parameter solved by a 12-point calibration, evaluated off-grid near the top (stores the segment), solved by a 3-point calibration, evaluated again
+    "hint_shrink_unknown_12_then_3": ["ccreate 0 1", "cscalar 0 0.45 0.25", "cunknown 0 3", "nalloc 0 0 8 1 1 12", "nsetfv 0 0"] + SOL1 + ["nsr 0 1 1 0 0 4 1 0.5 0.3", "nsolve 0",
+                                      "cpval 0 4 11.5e9", "nalloc 1 0 0 1 1 3", "nsetfv 1 0"] + [x.replace("nsr 0", "nsr 1") for x in SOL1] +
+                                     ["nsr 1 1 1 0 0 4 1 0.5 0.3", "nsolve 1", "cpval 0 4 2.5e9", "cpval 0 4 1e9", "nsolve 0", "cpval 0 4 11.5e9", "cfree 0"],
+    # ---- self-aliasing family: the pointer a getter returns handed to a mutator of the same (or a second) object; table in docs/design_C03.md
+    "alias_prop_set_get": ["pset 0 a.b=hello", "pset 0 a.c=world", "pset 0 k=v", "paset 0 0 k k %00", "paset 0 0 k k _a_much_longer_suffix_than_the_value_had_so_that_it_is_reallocated",
+                           "paset 0 0 a.b a.b.c x", "paset 0 0 a.c l[+] %00", "paset 0 0 a.c l[0+] _y", "paset 1 0 k k %00", "paset 0 1 k a.c _z", "paset 0 0 a.c . %00", "pdig 0", "pdig 1"],
+    "alias_prop_keys_iteration": ["pset 0 m.k1=v1", "pset 0 m.k2=v2", "pset 0 m.k3=v3", "pset 0 a.b=1", "pakeys 0 m 0", "pakeys 0 m 2", "pakeys 0 m 2", "pakeys 0 m 1", "pset 0 m.k1=v1", "pset 0 m.k2=v2",
+                                  "pakeys 0 m 3", "pakeys 0 . 0", "pakeys 0 . 2", "pset 0 m.k2=v2", "pakeys 0 m 4", "pakeys 0 . 1", "pdig 0"],
+    "alias_prop_import_and_anchor": ["pset 1 y={a:%20[1,%202],%20b:%20c}", "paimports 1 1 y 1", "pdig 1", "pset 2 a.b=1", "pset 2 y=[1,%20{k:%20v}]", "paimports 3 2 y 0", "padelvia 2 a.b", "padelvia 2 a",
+                                     "paimportvia 2 x.y c:%20d%0A", "paimportvia 2 x.y x:%20[%0A", "pdig 2", "pdig 3"],
+    # D71: vnaproperty_copy whose source lies inside the destination (heap-use-after-free in dfs_copy as long as the copy is made after the destination was freed)
+    "alias_prop_copy_source_inside_destination": ["pset 0 a.b=hello", "pset 0 a.c=world", "pset 0 k=v", "pacopy 0 0 a", "pdig 0", "pset 1 a.x=1", "pset 1 a.b.c=old", "pacopysub 1 a 1 a.b", "pdig 1",
+                                                  "pset 2 a.x=1", "pacopy 2 2 .", "pdig 2", "pset 3 l[0].k=1", "pset 3 l[1]=2", "pacopy 3 3 l[0]", "pdig 3"],
+    # D71: ... and whose destination lies inside the source (unbounded recursion)
+    "alias_prop_copy_destination_inside_source": ["pset 0 a.x=1", "pset 0 a.b=old", "pacopysub 0 a.b 0 a", "pdig 0", "pacopysub 0 a.b.new 0 .", "pdig 0"],
+    "alias_data_same_object": ["dalloc 0 1", "dinit 0 1 2 2 3", "dsetfv 0 0", "dsetm 0 0 1.5", "dsetm 0 1 2.5", "dsetfmt 0 Sri,Zma", "dasetfmt 0 0", "dgetfmt 0", "dasetfv 0 0", "dasetm 0 1 0 1", "dasetm 0 0 0 1",
+                               "dasetv 0 0 1 0 1", "dagetv 0 1 0 0 2", "dasetz0v 0 0 0 0", "dsetft 0 3", "dasavefmt 0 0 1", "dacksavefmt 0 0", "dsetfmt 0 ma", "dasavefmt 0 0 1", "dgetfmt 0", "dconv 0 0 4", "ddig 0"],
+    # D72 / D73: the object's own z0 vector handed to the setter that first changes the z0 mode (and so frees that vector)
+    "alias_data_z0_vector_mode_change": ["dalloc 0 1", "dinit 0 1 2 2 3", "dsetz0 0 1 75 0", "dasetfz0v 0 1 0 0 0", "ddig 0", "dasetfz0v 0 0 0 1 1", "dasetfz0v 0 2 0 1 2", "dasetz0v 0 0 1 1", "ddig 0",
+                                         "dasetfz0v 0 2 0 1 0", "ddig 0", "dsetfz0 0 1 1 40 2", "dasetz0v 0 0 1 1", "dasetz0v 0 0 0 0", "ddig 0"],
+    "alias_data_second_object": ["dalloc 0 1", "dinit 0 1 2 2 3", "dsetfv 0 0", "dsetm 0 0 1.5", "dsetfmt 0 Sma", "dsetft 0 1", "dsave 0 2 x.s2p", "dalloc 1 1", "dinit 1 1 3 3 4", "dsetfmt 1 Zri", "dasetfmt 0 1",
+                                 "dasetfv 0 1", "dasetm 0 1 1 2", "dasetz0v 0 1 0 0", "dasetfz0v 0 1 1 0 0", "dasetfz0v 0 2 1 1 3", "dasetz0v 0 1 1 2", "dsetz0 1 2 60 0", "dasetz0v 0 1 0 0", "dsetft 1 1", "daloadfmt 1 0 2", "dasavefmt 1 0 3", "ddig 0", "ddig 1"],
+    "alias_cal": ["ccreate 0 1", "cpset 0 -1 g.x=1", "nalloc 0 0 0 1 1 3", "nsetfv 0 0"] + SOL1 +
+                 ["nsolve 0", "caddcal 0 cal0 0", "csave 0 0", "cpset 0 0 k=v", "capset 0 0 0 0 k k %00", "capset 0 0 0 0 k k _longer_suffix_to_make_the_value_grow_beyond_its_block", "capset 0 -1 0 0 k g.y %00",
+                  "capset 0 0 0 -1 g.x k2 %00", "capsetvia 0 0 sub.a val", "capcopy 0 0 copy 0 -1 .", "capcopy 0 -1 fromcal 0 0 sub", "capexport 0 0 . 1", "capimport 0 0 imp 1", "pdig 1",
+                  "capkeys 0 0 imp 1", "capkeys 0 0 . 2", "capkeys 0 0 . 0", "capkeys 0 -1 g 3", "cafind 0 0 0", "nsolve 0", "caaddcal 0 0 0 0", "cgets 0 0", "cavector 0 0 0", "cacorr 0 0 0 3", "cpval 0 3 1.5e9",
+                  "nalloc 1 0 0 1 1 3", "nasetfv 1 0 0", "namerr 1 0 0", "nalloc 2 0 0 1 1 2", "nasetfv 2 0 0", "dalloc 0 1", "caapply 0 0 1 0 1 1 0 0 0", "ddig 0", "dinit 0 1 1 1 3", "dsetfv 0 0",
+                  "caapply 0 0 0 0 1 1 1 0 0", "caload 1 0 1", "cgets 1 0", "casave 1 0", "casave 0 1", "cafind 0 0 1", "nsolve 0", "caaddcal 0 0 1 0", "cfree 1", "cgets 0 0", "cfree 0"],
+    # D71 through the vnacal property functions: the properties of a calibration copied from / into themselves
+    "alias_cal_property_copy_overlap": ["ccreate 0 1", "cpset 0 -1 a.b=1", "cpset 0 -1 a.c.d=2", "capcopy 0 -1 . 0 -1 a", "cpget 0 -1 c.d", "capcopy 0 -1 c 0 -1 c.d", "cpkeys 0 -1 .", "cfree 0"],
+    # D75: a calibration with zero frequencies: vnacal_get_fmin / vnacal_get_fmax / the range check of vnacal_apply read element 0 and -1 of its empty frequency vector
+    "zero_freq_calibration_getters_and_apply": ["ccreate 0 1", "nalloc 0 0 0 1 1 0", "nsetfv 0 0"] + SOL1 + ["nsolve 0", "caddcal 0 cal0 0", "cgets 0 0", "dalloc 0 1", "capply 0 0 0 1 1 1 0 0",
+                                                "capply 0 0 0 2 1 1 1 0", "capply 0 0 0 0 1 1 0 0", "csave 0 0", "cload 1 0 1", "cgets 1 0", "cfree 1", "cfree 0"],
 }
 
 
@@ -113,7 +184,8 @@ class Explorer(object):
         small = ops
         is_known = vplib.match_known(self.ctx.prop, sig, self.known) is not None
         if shrink_test is not None and (self.shrink_all or not is_known) and len(ops) > 1:
-            small = mem_gen.ddmin(list(ops), shrink_test, budget=80)
+            # (an op that hangs costs the whole watchdog time of the harness in every replay: few replays)
+            small = mem_gen.ddmin(list(ops), shrink_test, budget=10 if sig.get("error") == "timeout" else 80)
         self.seen[key] = (sig, what, {"script": small, "how": "harness/mem_harness.c <script> <workdir>  (ASan+UBSan+LSan, allocwrap)",
                                       "stderr": err[-2500:]})
 
@@ -210,7 +282,7 @@ def run(ctx):
     # generated histories
     quick = ctx.tier != "thorough"
     mixes = [("p",), ("d",), ("c", "n"), ("p", "d", "c", "n"), ("c", "n", "d")]
-    nhist = 8 if quick else 60
+    nhist = 10 if quick else 60
     nops = 40 if quick else 200
     for mi, mods in enumerate(mixes):
         for h in range(nhist):
@@ -220,6 +292,15 @@ def run(ctx):
                 ex.explore(mem_gen.mutate_script(ctx.rng, ops, 4), "mut/%s/%d" % ("".join(mods), h))
             if h == 0:
                 ctx.sample({"history": "gen/%s/%d" % ("".join(mods), h), "first_ops": ops[:6]})
+    # profiles: every history starts with one scenario of lib/mem_gen.py (neighbourhoods of D68 / D69 / D70, shrink-after-use of an
+    # allocation / a cached segment, list growth boundaries) or has a high rate of self-aliasing ops
+    nprof = 4 if quick else 40
+    for prof in sorted(mem_gen.PROFILES):
+        for h in range(nprof):
+            ops = mem_gen.gen_profile_script(ctx.rng, 30 if quick else 80, prof, p_bad=0.1 if h % 2 == 0 else 0.25)
+            ex.explore(ops, "prof/%s/%d" % (prof, h))
+            if h == 0:
+                ctx.sample({"history": "prof/%s/%d" % (prof, h), "first_ops": ops[:6]})
     if not quick:
         n = 0
         for seq in bounded_prefixes(3):
